@@ -129,7 +129,11 @@ func runKick(c map[string]any, ev map[string]any) error {
 	tacc := bitmapOf(c["tacc"])
 	ban := intOf(c["ban"])
 	third, _ := c["third"].(string)
-	h, err := newHWorld(hopts{acc: acc, othAcc: tacc, third: third, pacc: bitmapOf(c["pacc"])})
+	othLogin := ""
+	if sh, _ := c["shared"].(bool); sh {
+		othLogin = "req" // the target is a second connection of the requester's own account
+	}
+	h, err := newHWorld(hopts{acc: acc, othAcc: tacc, third: third, pacc: bitmapOf(c["pacc"]), othLogin: othLogin})
 	if err != nil {
 		return err
 	}
